@@ -539,6 +539,14 @@ func c17EditRegions(r *an.Run) {
 		}
 		wb, kb := p.Atoms["before"]
 		wa, ka := p.Atoms["after"]
+		// a group with comments cannot both end at or before the node's start and start at or after its end
+		// (Pos < End for the group, Pos <= End for the node): a path that found one need not test the other
+		if kb && wb && !ka {
+			wa, ka = false, true
+		}
+		if ka && wa && !kb {
+			wb, kb = false, true
+		}
 		if !kb || !ka || gotB != wb || gotA != wa {
 			good = false
 		}
